@@ -33,8 +33,16 @@ func NewTraceWriter(path string) *TraceWriter {
 	return &TraceWriter{f: f, w: bufio.NewWriterSize(f, 1<<20), Path: path}
 }
 
+// DriverCfg is the -cfg string of the running driver (set by drv.Main); it is
+// written into every Init line so that a trace can be replayed with the same
+// driver configuration.
+var DriverCfg string
+
 func (t *TraceWriter) Write(ev M, st any) {
 	line := M{"ev": ev, "st": st}
+	if n, _ := ev["name"].(string); n == "Init" {
+		line["cfg"] = DriverCfg
+	}
 	if err := checkJSON(line, "line"); err != nil {
 		panic(fmt.Sprintf("trace line not TLC-safe: %v\n%v", err, line))
 	}
